@@ -255,6 +255,20 @@ type World struct {
 	Fetches []int       // layer numbers realized, since reset
 	opScans int
 	opFetch int
+	callCtx context.Context // the caller's context of the running Index call
+	ph      *phase          // coalescer synchronisation of the running Index call
+}
+
+// phase orders the stub coalescers of one Index call: in the schedule the
+// protocol uses, every Coalesce call finishes after the last store query of the
+// coalesce state (the last FilesByLayer), in ecosystem order, and after the
+// first failing one the others are cancelled without being numbered.
+type phaseKey struct{}
+
+type phase struct {
+	fWant, fCount int
+	turn          []chan struct{} // turn[i] is closed when stub ecosystem i may enter; turn[0] when all queries are done
+	failed        bool
 }
 
 func NewWorld() *World {
@@ -280,6 +294,15 @@ func (w *World) enter(ctx context.Context, letter byte) (error, bool) {
 	}
 	p := w.pos
 	w.pos++
+	// a successful FilesByLayer: the last one of the coalesce state releases the stub coalescers
+	okF := func() {
+		if letter == 'F' && w.ph != nil {
+			w.ph.fCount++
+			if w.ph.fCount == w.ph.fWant {
+				close(w.ph.turn[0])
+			}
+		}
+	}
 	fail := func(err error) (error, bool) {
 		w.failed = true
 		w.trace = append(w.trace, letter|0x20)
@@ -306,6 +329,7 @@ func (w *World) enter(ctx context.Context, letter byte) (error, bool) {
 		return fail(errCrashed)
 	case FCancelAfter:
 		w.trace = append(w.trace, letter)
+		okF()
 		w.cancel()
 		return nil, true
 	case FCommitErr:
@@ -314,6 +338,7 @@ func (w *World) enter(ctx context.Context, letter byte) (error, bool) {
 		return errInjected, true
 	}
 	w.trace = append(w.trace, letter)
+	okF()
 	return nil, false
 }
 
@@ -413,9 +438,68 @@ func (s *repoStub) Scan(ctx context.Context, l *claircore.Layer) ([]*claircore.R
 // stubCoalescer reports every package with the first layer it was seen in,
 // every distribution and every repository. It does not depend on the order of
 // artifacts inside a layer.
-type stubCoalescer struct{}
+type stubCoalescer struct {
+	w   *World
+	idx int // ecosystem index
+}
 
-func (stubCoalescer) Coalesce(ctx context.Context, artifacts []*indexer.LayerArtifacts) (*claircore.IndexReport, error) {
+// enter makes the Coalesce call a numbered call (letter C). In protocol
+// sessions it first waits for its turn (see phase); with several scanner
+// goroutines (direct checks only) it is entered as it comes.
+func (c *stubCoalescer) enter(ctx context.Context) error {
+	w := c.w
+	// the phase of the Index call this coalescer belongs to travels in the
+	// context: a goroutine of an abandoned coalesce state may only start to run
+	// while the world is already in its next Index call
+	ph, _ := ctx.Value(phaseKey{}).(*phase)
+	w.mu.Lock()
+	active := w.active && (ph == nil || ph == w.ph)
+	cctx := w.callCtx
+	w.mu.Unlock()
+	if !active {
+		return ctx.Err()
+	}
+	if ph == nil || w.Concurrency > 1 {
+		err, _ := w.enter(ctx, 'C')
+		return err
+	}
+	select {
+	case <-ph.turn[0]:
+	case <-ctx.Done():
+		select {
+		case <-ph.turn[0]:
+		default:
+			// the coalesce state was left before its last query: nobody waits for this result
+			return ctx.Err()
+		}
+	}
+	select {
+	case <-ph.turn[c.idx]:
+	case <-time.After(20 * time.Second):
+		return errors.New("stub coalescer: turn never came")
+	}
+	w.mu.Lock()
+	skip := ph.failed
+	w.mu.Unlock()
+	var err error
+	if skip {
+		err = context.Canceled // cancelled by the errgroup after an earlier coalescer failed
+	} else {
+		err, _ = w.enter(cctx, 'C')
+		if err != nil {
+			w.mu.Lock()
+			ph.failed = true
+			w.mu.Unlock()
+		}
+	}
+	close(ph.turn[c.idx+1])
+	return err
+}
+
+func (c *stubCoalescer) Coalesce(ctx context.Context, artifacts []*indexer.LayerArtifacts) (*claircore.IndexReport, error) {
+	if err := c.enter(ctx); err != nil {
+		return nil, err
+	}
 	ir := &claircore.IndexReport{
 		Packages:      map[string]*claircore.Package{},
 		Environments:  map[string][]*claircore.Environment{},
@@ -533,7 +617,7 @@ func (w *World) ecosystems(cfg Config) []*indexer.Ecosystem {
 			PackageScanners:      func(context.Context) ([]indexer.PackageScanner, error) { return ps, nil },
 			DistributionScanners: func(context.Context) ([]indexer.DistributionScanner, error) { return ds, nil },
 			RepositoryScanners:   func(context.Context) ([]indexer.RepositoryScanner, error) { return rs, nil },
-			Coalescer:            func(context.Context) (indexer.Coalescer, error) { return stubCoalescer{}, nil },
+			Coalescer:            func(context.Context) (indexer.Coalescer, error) { return &stubCoalescer{w: w, idx: i}, nil },
 		}
 	}
 	return ecos
@@ -695,6 +779,16 @@ func (w *World) Index(layers []int, script Script, dead bool) Result {
 	}
 	w.mu.Lock()
 	w.active, w.pos, w.script, w.crashed, w.failed, w.cancel, w.trace = true, 0, script, false, false, cancel, nil
+	necos := 0
+	for _, s := range w.Cfg {
+		necos = max(necos, s.Eco+1)
+	}
+	w.ph = &phase{fWant: (necos + 1) * len(layers), turn: make([]chan struct{}, necos+2)}
+	for i := range w.ph.turn {
+		w.ph.turn[i] = make(chan struct{})
+	}
+	ctx = context.WithValue(ctx, phaseKey{}, w.ph)
+	w.callCtx = ctx
 	s0, f0 := len(w.Scans), len(w.Fetches)
 	w.mu.Unlock()
 	type ret struct {
